@@ -349,7 +349,9 @@ def load_known(prop):
 
 
 def write_evidence(prop, ev):
-    d = os.path.join(VERIF, "evidence")
+    # VERIF_EVIDENCE_DIR: used by tools/seeded.py only, so that runs against a deliberately broken tree never overwrite
+    # the evidence of the real tree
+    d = os.environ.get("VERIF_EVIDENCE_DIR") or os.path.join(VERIF, "evidence")
     os.makedirs(d, exist_ok=True)
     path = os.path.join(d, prop + ".json")
     tmp = path + ".tmp"
